@@ -3,9 +3,11 @@
 //   BYTES start stop kb -> the final sieve bytes of every segment of a real Erat run
 //   DECODE bits low -> the numbers Erat::nextPrime yields for the set bits of a 64-bit word
 //   XOFF size l1 prime mi wi -> the bytes EratSmall::crossOff changes for one sieving prime, and its stored state
+//   EBIG log2 nseg (prime mi wi)* -> the bytes EratBig::crossOff changes per segment and the bucket lists afterwards
 #include <stdint.h>
 #include <cstddef>
 #include <string>
+#include <algorithm>
 #include <vector>
 #define private public
 #define protected public
@@ -96,6 +98,40 @@ int main()
       std::string out;
       for (std::size_t i = 0; i < size; i++) if (sieve[i] != 0xff) out += std::to_string(i) + ":" + std::to_string((unsigned) sieve[i]) + " ";
       std::cout << out << "| " << es.primes_[0].getMultipleIndex() << " " << es.primes_[0].getWheelIndex() << std::endl;
+    } else if (t.size() >= 3 && t[0] == "EBIG") {
+      // EBIG log2 nseg (prime multipleIndex wheelIndex)*: the real EratBig on all-ones sieves of 2^log2 bytes: the given states are
+      // stored with storeSievingPrime, then nseg segments are crossed off.  Output: per segment "byte:value ... |", then
+      // "size=<buckets_.size()>" and every non-empty bucket list "k:sp,i,w;sp,i,w" (entries sorted)
+      std::size_t log2 = (std::size_t) u64(t[1]); std::size_t size = (std::size_t) 1 << log2; uint64_t nseg = u64(t[2]);
+      uint64_t maxp = 0; for (std::size_t k = 3; k + 2 < t.size(); k += 3) maxp = std::max(maxp, u64(t[k]));
+      MemoryPool pool; EratBig eb; eb.init(~0ull, size, maxp, pool);
+      for (std::size_t k = 3; k + 2 < t.size(); k += 3) eb.storeSievingPrime(u64(t[k]), u64(t[k + 1]), u64(t[k + 2]));
+      std::string out;
+      Vector<uint8_t> sieve; sieve.resize(size);
+      for (uint64_t sgi = 0; sgi < nseg; sgi++) {
+        for (std::size_t i = 0; i < size; i++) sieve[i] = 0xff;
+        eb.crossOff(sieve);
+        for (std::size_t i = 0; i < size; i++) if (sieve[i] != 0xff) out += std::to_string(i) + ":" + std::to_string((unsigned) sieve[i]) + " ";
+        out += "| ";
+      }
+      out += "size=" + std::to_string(eb.buckets_.size());
+      for (std::size_t k = 0; k < eb.buckets_.size(); k++) {
+        SievingPrime* endp = eb.buckets_[k];
+        if (!endp) continue;
+        std::vector<std::vector<uint64_t>> es;
+        Bucket* b = Bucket::get(endp);
+        bool first = true;
+        while (b) {
+          SievingPrime* e = first ? endp : b->end();
+          for (SievingPrime* q = b->begin(); q != e; q++) es.push_back({ (uint64_t) q->getSievingPrime(), (uint64_t) q->getMultipleIndex(), (uint64_t) q->getWheelIndex() });
+          first = false; b = b->next();
+        }
+        std::sort(es.begin(), es.end());
+        if (es.empty()) continue;
+        out += " " + std::to_string(k) + ":";
+        for (std::size_t j = 0; j < es.size(); j++) out += (j ? ";" : "") + std::to_string(es[j][0]) + "," + std::to_string(es[j][1]) + "," + std::to_string(es[j][2]);
+      }
+      std::cout << out << std::endl;
     } else if (t.size() >= 3 && t[0] == "NBUF") {
       // forward buffer after the first generate_next_primes() of iterator(start, hint):
       // "<buffer size (Vector::size)> <size_> <chunk stop> <primeCountUpper(start, stop)>"
